@@ -38,23 +38,41 @@ func (c *Client) keepaliveLoop(ctx context.Context) error {
 	ticker.Stop()
 	defer ticker.Stop()
 
+	// The keep-alive ping in flight (if any). The loop must not block
+	// while waiting for PINGRESP: it has to take over the state changes,
+	// otherwise setState() - and with it the receive loop or a waking
+	// sleep transaction - would block.
+	var ping *pingTransaction
+	var pingDone <-chan struct{}
+
 	for {
 		select {
 		case <-ticker.C:
-			// Ping() must not be used here: if the client is
-			// terminated, it waits for all client's goroutines,
-			// i.e. also for this one.
-			err, terminated := c.ping()
-			if terminated {
-				return nil
+			// A tick can be left over from before the ticker was
+			// stopped; a ping still in flight makes the tick
+			// redundant.
+			if ping != nil || c.state.Get() != util.StateActive {
+				continue
 			}
-			if err != nil {
+			ping = c.startPing()
+			pingDone = ping.Done()
+
+		case <-pingDone:
+			err := ping.Err()
+			ping, pingDone = nil, nil
+			if err != nil && err != errPingCancelled {
 				return err
 			}
 
 		case state := <-c.stateChangeCh:
 			ticker.Stop()
 			if state != util.StateActive {
+				// No keep-alive PINGREQ (nor its retransmission) may
+				// be sent by a sleeping or disconnected client: the
+				// gateway would take it for a wake-up.
+				if ping != nil {
+					ping.Fail(errPingCancelled)
+				}
 				continue
 			}
 			ticker.Reset(c.cfg.KeepAlive)
